@@ -86,3 +86,19 @@ PROPS["C04"] = dict(
     min_nontrivial=dict(quick=4000, thorough=150000),
     stages=[dict(name="hist", target="hist", x=dict(prop="C04"), quick=dict(cases=1500, maxsize=80), thorough=dict(cases=40000, maxsize=100))],
 )
+
+PROPS["C03"] = dict(
+    level="exploration",
+    rule=("LPs with planted certificates (optimal / infeasible / unbounded / both) whose data are made non-dyadic by exact rational "
+          "row/column factors (1/3, 2/7, 3/1000 ..., 15% with ratios 1e+-6..12), entered through the rational interface (AUTO / "
+          "MANUAL sync) or the real interface (ONLYREAL), solved with SOLVEMODE_RATIONAL and zero tolerances under default exact "
+          "options, the two shipped exact settings files, 1-3 deviations or a uniform draw of the 13 exact-solver booleans x "
+          "simplifier/scaler/representation/algorithm. Every returned OPTIMAL/INFEASIBLE/UNBOUNDED is checked against the planted "
+          "class and its rational vectors with the certificate oracle at tolerance 0 (objective == c.x + offset exactly, Farkas "
+          "and ray exact). non-trivial = non-dyadic data, m,n >= 2 and a verdict was returned; distinct = case text."),
+    assumptions=["option sets with reconstruction and factorization both off, or with iterative refinement off outside the shipped file, "
+                 "are judged on the verdict only (property quantifier)", "deterministic budgets ITERLIMIT 5000 / REFLIMIT 100; a 20 s "
+                 "TIMELIMIT is a watchdog whose hits are counted as inconclusive"],
+    min_nontrivial=dict(quick=300, thorough=20000),
+    stages=[dict(name="exact", target="exact", quick=dict(cases=200, maxsize=70, timeout=2400), thorough=dict(cases=4000, maxsize=100))],
+)
